@@ -461,3 +461,21 @@ def as_callback(fn, rng):
         def run_cls(cls, *a, **k):
             return cls.target(*a, **k)
     return (Lab().run, form) if form == "bound_method" else (Lab.run_cls, form)
+
+
+def confusable_occupations(rng, k: int, how_many: int = 4) -> list:
+    """Different occupation lists over k modes whose decimal digits, written one after the other, read the same
+    (|1,20> / |12,0> / |120,...>): any key built by joining the numbers without a separator confuses them."""
+    from itertools import combinations
+    if k < 2:
+        return []
+    length = k + int(rng.integers(1, 4))
+    digits = "".join(str(int(d)) for d in [rng.integers(1, 10)] + list(rng.integers(0, 10, size=length - 1)))
+    splits = []
+    for cuts in combinations(range(1, length), k - 1):
+        parts = [digits[a:b] for a, b in zip((0,) + cuts, cuts + (length,))]
+        if all(p == "0" or not p.startswith("0") for p in parts):
+            splits.append([int(p) for p in parts])
+    rng.shuffle(splits)
+    return splits[:how_many]
+
